@@ -6,4 +6,16 @@ cd /verif || exit 2
 if [ ! -x /verif/bin/spgcheck ] || [ -n "$(find /verif/checker -newer /verif/bin/spgcheck -name '*.go' -print -quit 2>/dev/null)" ]; then
   (cd /verif/checker && go build -o /verif/bin/spgcheck ./cmd/spgcheck) || { echo "build of spgcheck failed" >&2; exit 2; }
 fi
-exec /verif/bin/spgcheck "$@"
+/verif/bin/spgcheck "$@"
+rc=$?
+# A check that dies (checker crash, resource exhaustion) has decided nothing: that is a failure of the
+# property's check, reported in the same form as a violation (never a silent pass, never an odd status).
+if [ "$1" = "check" ] && [ $rc -ne 0 ] && [ $rc -ne 1 ]; then
+  prop=""; prev=""
+  for a in "$@"; do [ "$prev" = "-prop" ] && prop="$a"; prev="$a"; done
+  mkdir -p /verif/evidence
+  echo "{\"property\":\"$prop\",\"reason\":\"the checker ended abnormally (status $rc) before deciding the property\"}" > "/verif/evidence/$prop.violations.json"
+  echo "VIOLATION property=$prop replay=/verif/evidence/$prop.violations.json"
+  exit 1
+fi
+exit $rc
